@@ -565,6 +565,28 @@ def generate(repo):
             'render_synthetic_surface(size=size,samples=samples,rms=rms,mask=mask,psd_fcn=psd_fcn,**psd_fcn_kwargs)'
     g.fact('interferogramRenderDelegates', 'prysm/interferogram.py:Interferogram.render_from_psd', ifg_render)
 
+    def spectral_stateless():
+        """psd / bandlimited_rms / total_integrated_scatter read only (data, dx, wavelength) of the current state (and call
+        each other); they store nothing on self, so no result of an earlier call can reach a later one"""
+        allowed = {'data', 'dx', 'wavelength', 'shape', 'size', 'psd', 'bandlimited_rms'}
+        for name in ('psd', 'bandlimited_rms', 'total_integrated_scatter'):
+            fn = get_def(ifm, 'Interferogram.' + name)
+            for n in ast.walk(fn):
+                if isinstance(n, ast.Attribute) and isinstance(n.value, ast.Name) and n.value.id == 'self':
+                    if isinstance(n.ctx, (ast.Store, ast.Del)):
+                        return False
+                    if n.attr not in allowed:
+                        return False
+                if isinstance(n, ast.Call) and ast.unparse(n.func) in ('setattr', 'getattr', 'vars', 'object.__setattr__'):
+                    return False
+                if isinstance(n, (ast.Global, ast.Nonlocal)):
+                    return False
+                if isinstance(n, ast.Attribute) and ast.unparse(n).startswith('self.__dict__'):
+                    return False
+        return True
+    g.fact('interferogramSpectralMethodsStateless', 'prysm/interferogram.py:Interferogram.{psd,bandlimited_rms,total_integrated_scatter}',
+           spectral_stateless)
+
     return g.finish()
 
 
